@@ -36,6 +36,99 @@ reg(["C03"], H("fixed::proto_table_kf", unwind=2, timeout=300, mem_gb=2, expect=
     desc="known-finding witness: ProtocolTypes::from(n) for n in {0,1,144}",
     bounds={"n": "{0,1,144}"}))
 
+reg(["C03", "C01"], H("fixed::v7_layout", unwind=4, timeout=900, mem_gb=8,
+    desc="V7::parse on a complete packet: every header/record field at its Cisco offset; remainder at 24+52*count",
+    bounds={"bytes": 129, "count": "<=2 (symbolic)", "trailing_bytes": 3}))
+reg(["C03"], H("fixed::v5_v7_proto_name", unwind=3, timeout=600, mem_gb=6,
+    desc="record.protocol_type == ProtocolTypes::from(record.protocol_number) for V5 and V7",
+    bounds={"count": 1}))
+reg(["C03", "C14", "C01"], H("fixed::v5_trunc", unwind=4, timeout=1500, mem_gb=20, tier="thorough",
+    desc="V5::parse at every cut point: Ok iff 24+48*count bytes are present, never fewer records",
+    bounds={"bytes": "0..=74 (symbolic length)", "count": "any u16 (2 or more records never fit => Err)"}))
+reg(["C03", "C14", "C01"], H("fixed::v7_trunc", unwind=4, timeout=1500, mem_gb=20, tier="thorough",
+    desc="V7::parse at every cut point",
+    bounds={"bytes": "0..=78 (symbolic length)", "count": "any u16"}))
+for _v, _rec in (("v5", 48), ("v7", 52)):
+    for _c in (0, 1, 2):
+        reg(["C08", "C01"], H("fixed::%s_reexport_%d" % (_v, _c), unwind=4, timeout=1200, mem_gb=12,
+            tier="quick" if _c == 1 else "thorough",
+            desc="%s: to_be_bytes(parse(b)) == version || b[..22+%d*count] with count written = %d, byte index symbolic" % (_v.upper(), _rec, _c),
+            bounds={"count": _c, "other_bytes": "all symbolic"}))
+for _v in ("v5", "v7"):
+    for _c in (0, 1, 2):
+        reg(["C08"], H("fixed::%s_struct_roundtrip_%d" % (_v, _c), unwind=4, timeout=1200, mem_gb=12,
+            tier="quick" if _c == 1 else "thorough",
+            desc="%s: parse(to_be_bytes(s)) == s for arbitrary structures with count == records == %d" % (_v.upper(), _c),
+            bounds={"records": _c, "field_values": "all symbolic"},
+            assumptions=["structure has the right version constant and protocol_type == ProtocolTypes::from(protocol_number)"]))
+        reg(["C13", "C01"], H("fixed::%s_common_%d" % (_v, _c), unwind=4, timeout=900, mem_gb=8,
+            tier="quick" if _c == 2 else "thorough",
+            desc="%s common view with %d records: version, timestamp, per-record projection in order, MACs None" % (_v.upper(), _c),
+            bounds={"records": _c}))
+reg(["C13"], H("fixed::error_common", unwind=3, timeout=300, mem_gb=2,
+    desc="Error packet converts to Err", bounds={}))
+
+
+# ---------------------------------------------------------------- K: field kernels
+_KB = {"declared_length": "all 65536 values", "available_bytes": "0..=MAXB (symbolic)", "byte_values": "all"}
+def kreg(name, props, maxb, unwind, desc, tier="quick", timeout=900, mem=6, **kw):
+    return reg(props, H("k::" + name, unwind=unwind, timeout=timeout, mem_gb=mem, tier=tier, desc=desc,
+                        bounds=dict(_KB, MAXB=maxb), **kw))
+
+kreg("k_unsigned", ["C04", "C05", "C09", "C10", "C01"], 17, 18, "unsigned kernel: decode iff width in {1,2,3,4,8,16} and bytes available; value = big-endian reading; same-width re-export")
+kreg("k_signed", ["C04", "C05", "C01"], 17, 18, "signed kernel: widths 1,2,3,4 value-exact (sign extension); 3,4 re-export exact", tier="thorough")
+kreg("k_signed_wide_kf", ["C04", "C05"], 16, 18, "finding witness: 8/16-byte signed truncated to i32", expect="fail", finding="C04-signed-8-16-truncated", tier="thorough")
+kreg("k_signed_reexport_kf", ["C09", "C10"], 16, 18, "finding witness: 1/2/8/16-byte signed re-exported as 4 bytes", expect="fail", finding="C09-signed-width", tier="thorough")
+kreg("k_dur_secs", ["C04", "C05", "C01"], 17, 18, "duration(seconds) kernel, value-exact for widths <= 8; to_be_bytes never panics", tier="thorough")
+kreg("k_dur_millis", ["C04", "C05", "C01"], 17, 18, "duration(milliseconds) kernel (V9 FIRST/LAST_SWITCHED), value-exact for widths <= 8")
+kreg("k_dur_millis_w8", ["C04", "C05"], 17, 18, "duration(milliseconds) kernel, value-exact for widths <= 8 (64-bit division by constant: slow)", tier="thorough", timeout=2400)
+kreg("k_dur_micros", ["C05", "C01"], 17, 18, "duration(microseconds) kernel", tier="thorough")
+kreg("k_dur_nanos", ["C05", "C01"], 17, 18, "duration(nanoseconds) kernel", tier="thorough")
+kreg("k_dur_millis_reexport_kf", ["C09", "C10"], 4, 6, "finding witness: millisecond durations re-exported as seconds", expect="fail", finding="C09-duration-reexport")
+kreg("k_dur_secs_reexport_kf", ["C09", "C10"], 8, 10, "finding witness: second durations of width != 4 re-exported as 4 bytes / Err", expect="fail", finding="C09-duration-reexport", tier="thorough")
+kreg("k_dur_secs4_reexport", ["C09", "C10"], 4, 6, "4-byte second durations re-export exactly (remainder of C09-duration-reexport)", tier="thorough")
+kreg("k_ip4", ["C04", "C05", "C09", "C10", "C13", "C01"], 6, 7, "IPv4 kernel: 4 bytes, value and re-export exact")
+kreg("k_ip6", ["C04", "C05", "C09", "C10", "C13", "C01"], 17, 18, "IPv6 kernel: 16 bytes, value and re-export exact", tier="thorough")
+kreg("k_f64", ["C05", "C10", "C01"], 9, 10, "float64 kernel: bit-exact incl. NaN payloads; re-export exact", tier="thorough")
+kreg("k_proto", ["C04", "C05", "C09", "C10", "C01"], 3, 4, "protocol kernel for assigned numbers and 255: one byte, IANA name, re-export exact")
+kreg("k_proto_unassigned_kf", ["C04", "C05"], 2, 4, "finding witness: protocol field with unassigned number 145..254 fails to decode", expect="fail", finding="C04-proto-field-unassigned")
+kreg("k_mac", ["C04", "C05", "C01"], 7, 8, "MAC kernel: 6 bytes consumed", tier="thorough")
+kreg("k_mac_reexport_kf", ["C09", "C10"], 6, 8, "finding witness: MAC re-exported as 17 text bytes", expect="fail", finding="C09-mac-reexport", tier="thorough")
+kreg("k_vec", ["C04", "C05", "C09", "C10", "C01"], 5, 7, "byte-vector kernel: every declared length, value = bytes, re-export exact")
+kreg("k_unknown", ["C04", "C05", "C17", "C01"], 5, 7, "unknown-type kernel with parse_unknown_fields on: same as byte vector", tier="thorough")
+kreg("k_string", ["C04", "C05", "C09", "C10", "C01"], 3, 8, "string kernel on ASCII input: text = bytes, re-export exact", tier="thorough", timeout=1500, mem=12)
+kreg("k_string_nonutf8_kf", ["C09", "C10"], 1, 8, "finding witness: non-UTF-8 string byte replaced by U+FFFD on re-export", expect="fail", finding="C09-string-lossy", tier="thorough", timeout=1500, mem=12)
+
+
+# ---------------------------------------------------------------- S/T: V9 flowset
+_D9 = "v9::Data::parse / v9::OptionsData::parse replaced by models that are exact on the harness domain (every cached field length >= 8, body <= 7 bytes => no record fits, body is padding)"
+reg(["C04", "C06", "C01"], H("s9::s_v9_template", unwind=5, timeout=1200, mem_gb=10,
+    desc="v9::FlowSet::parse, template flowset vs a symbolic one-entry cache: records as sent, padding, consumption, cache post-state (last wins, others untouched)",
+    bounds={"body_bytes": "<=12 (symbolic length)", "template_records": "<=3", "fields_per_record": "<=2", "cached_templates": 1}))
+reg(["C04", "C06", "C01"], H("s9::s_v9_options_template", unwind=5, timeout=1200, mem_gb=10,
+    desc="v9::FlowSet::parse, options-template flowset: first record as sent (scope/option fields), cached",
+    bounds={"body_bytes": "<=14 (symbolic length)", "fields": "<=2"}))
+reg(["C04", "C06", "C07", "C01"], H("s9::s_v9_data_dispatch", unwind=9, timeout=1200, mem_gb=10,
+    desc="v9::FlowSet::parse, data id 300 vs symbolic template/options-template ids: dispatch order, consumption, unknown id => Err, caches unchanged",
+    bounds={"body_bytes": "<=7", "cached": "1 template + 1 options template, symbolic ids"}, assumptions=[_D9]))
+for sfx, what in (("t", "template id 0"), ("o", "options-template id 1"), ("d", "data id 300")):
+    reg(["C14", "C06"], H("s9::s_v9_truncated_" + sfx, unwind=5, timeout=900, mem_gb=8,
+        desc="v9::FlowSet::parse with declared length > available bytes (%s): Err, caches unchanged" % what,
+        bounds={"available": 10, "declared_length": "11..=65535"}, assumptions=[_D9]))
+
+
+# ---------------------------------------------------------------- D: V9 data records
+_K9 = "FieldValue::from_field_type replaced by a model exact for UnsignedDataNumber lengths 0..=7 (exactness decided by k::k_unsigned)"
+reg(["C04", "C01"], H("d9::d_v9_two_fields", unwind=4, timeout=2400, mem_gb=30, tier="thorough",
+    desc="v9::Data::parse, 2 unsigned fields with symbolic declared lengths 0..=5: record count floor(7/size), values at offsets, keys/types/order, padding bytes, illegal width => no records",
+    bounds={"body_bytes": 7, "fields": 2, "declared_lengths": "0..=5 each, sum >= 3", "records": "<=2"}, assumptions=[_K9]))
+reg(["C04", "C01"], H("d9::d_v9_three_records", unwind=5, timeout=2400, mem_gb=30,
+    desc="v9::Data::parse, one 2-byte field, 7-byte body: 3 records + 1 padding byte, values in order",
+    bounds={"body_bytes": 7, "fields": 1, "records": 3}, assumptions=[_K9]))
+reg(["C01"], H("d9::d_v9_zero_size_template", unwind=4, timeout=1200, mem_gb=10,
+    desc="v9::Data::parse under a cached template of total length 0 (no fields, or one zero-length field): no panic, no records",
+    bounds={"body_bytes": 3, "fields": "0..=1"}, assumptions=[_K9]))
+
 
 def all_harnesses():
     return list(_ALL)
